@@ -177,7 +177,7 @@ impl ProbeSpace {
         let h = |l: &[(&str, &str)]| -> Vec<(String, String)> { l.iter().map(|(a, b)| (a.to_string(), b.to_string())).collect() };
         ProbeSpace {
             schemes: vec![s("http"), s("https"), None, s("ftp")],
-            hosts: vec![s("a.example"), s("A.Example"), s("cat.example"), s("cow.example"), s("Cat.Example"), s("cat.Example"), s("other.org"), None, s("cat.example.org")],
+            hosts: vec![s("a.example"), s("A.Example"), s("cat.example"), s("cow.example"), s("Cat.Example"), s("cat.Example"), s("shop-cat.example"), s("Shop-cat.example"), s("other.org"), None, s("cat.example.org")],
             ips: vec![
                 s("10.0.0.1"),
                 s("8.8.8.8"),
@@ -692,6 +692,7 @@ pub fn deviations() -> Vec<(usize, String, Box<dyn Fn(&mut RuleSpec) + Send + Sy
     add(5, "dt unparsable end", Box::new(move |r| r.datetime = Some(vec![(t0(), Some("not a date".into()))])));
     add(5, "time[09,17)", Box::new(|r| r.time = Some(vec![(Some("09:00:00".into()), Some("17:00:00".into()))])));
     add(5, "weekdays[Mon,Tue]", Box::new(|r| r.weekdays = Some(vec!["Mon".into(), "Tue".into()])));
+    add(5, "weekdays[Mon] (prefix of [Mon,Tue])", Box::new(|r| r.weekdays = Some(vec!["Mon".into()])));
     add(5, "weekdays unparsable", Box::new(|r| r.weekdays = Some(vec!["Blursday".into()])));
     add(
         5,
@@ -827,6 +828,8 @@ pub fn star_and_pairs_universe(pairs: u8) -> Vec<RuleSpec> {
                 "header_filters": [{"action": if i % 2 == 0 { "add" } else { "override" }, "header": format!("X-R{}", i % 4), "value": r.id, "id": null, "target_hash": null}],
                 "log_override": if i % 5 == 0 { json!(false) } else { Value::Null },
                 "stop": if i % 11 == 7 { json!(true) } else { Value::Null },
+                // every other stop rule is sampled out (sampling 0): its stop flag must then be ignored
+                "source": {"sampling": if i % 22 == 7 { json!(0) } else if i % 17 == 3 { json!(100) } else { Value::Null }},
                 "reset": if i % 13 == 5 { json!(true) } else { Value::Null },
             }));
         }
